@@ -18,6 +18,8 @@ def enc_impl(form, l):
     try:
         if form == 0: return "ok " + tools.weekdays_to_hexadecimal(DAYS[l[0]])
         if form == 1: return "ok " + tools.weekdays_to_hexadecimal({DAYS[i] for i in l})
+        if form == 3: return "ok " + tools.weekdays_to_hexadecimal(tuple(DAYS[i] for i in l))
+        if form == 4: return "ok " + tools.weekdays_to_hexadecimal(frozenset(DAYS[i] for i in l))
         return "ok " + tools.weekdays_to_hexadecimal([DAYS[i] for i in l])
     except Exception: return "raised"
 
@@ -41,11 +43,13 @@ def run(tier, rnd, out):
             base = rnd.sample(range(7), min(L - 1, 7)); seq = base + [rnd.choice(base)] * (L - len(base)); rnd.shuffle(seq); cs.append((2, seq))
     for _ in range(30):
         week = list(range(7)); rnd.shuffle(week); cs.append((2, week)); cs.append((2, week + [rnd.randrange(7)])); cs.append((2, week * 2))
+    cs += [(3, l) for f, l in cs if f == 2] + [(4, l) for f, l in cs if f == 1]      # the same as tuples and frozensets
     cases = [{"form": f, "days": l} for f, l in cs]
     io = [enc_impl(f, l) for f, l in cs]
-    mo = lib.run_model([lib.req("weekdays", f, l) for f, l in cs]); ex = lib.run_model([lib.req("weekdays_spec", f, l) for f, l in cs])
-    lib.differential(out, "encode", cases, io, mo, ex, lambda c: "weekdays_to_hexadecimal(%s of %s)" % (["single day", "set", "sequence"][c["form"]], c["days"]),
-                     nontrivial=lambda c: len(c["days"]) > 0, sample=lambda c: c, classify=lambda c, i: ["single", "set", "sequence"][c["form"]] + "/" + i.split(" ")[0])
+    mf = {0: 0, 1: 1, 2: 2, 3: 2, 4: 1}                                                # the model and the Spec know sets and sequences
+    mo = lib.run_model([lib.req("weekdays", mf[f], l) for f, l in cs]); ex = lib.run_model([lib.req("weekdays_spec", mf[f], l) for f, l in cs])
+    lib.differential(out, "encode", cases, io, mo, ex, lambda c: "weekdays_to_hexadecimal(%s of %s)" % (["single day", "set", "list", "tuple", "frozenset"][c["form"]], c["days"]),
+                     nontrivial=lambda c: len(c["days"]) > 0, sample=lambda c: c, classify=lambda c, i: ["single", "set", "list", "tuple", "frozenset"][c["form"]] + "/" + i.split(" ")[0])
     ms = list(range(256)) + [256, 257, 258, 510, 511, 512, 1000, 65535, 65536 + 2, 2 ** 32 + 4, -1, -2, -254, -256]
     io = [dec_impl(n) for n in ms]; mo = lib.run_model([lib.req("bitsum", n) for n in ms]); ex = lib.run_model([lib.req("bitsum_spec", n) for n in ms])
     lib.differential(out, "decode", [{"mask": n} for n in ms], io, mo, ex, lambda c: "bit_summary_to_days(%d)" % c["mask"],
@@ -66,6 +70,19 @@ def run(tier, rnd, out):
         l = [d for d in range(7) if m >> d & 1]; enc_impl(1, l); enc_again.append(enc_impl(1, l))
     lib.differential(out, "encode-twice", [{"days": [d for d in range(7) if m >> d & 1]} for m in range(1, 128)], enc_again, None,
                      lib.run_model([lib.req("weekdays_spec", 1, [d for d in range(7) if m >> d & 1]) for m in range(1, 128)]), lambda c: "encode(%s) twice" % c["days"])
+    # the argument belongs to the caller: one set / list object encoded twice, and still what it was
+    same = []; subs_ = [[d for d in range(7) if m >> d & 1] for m in range(1, 128)]
+    for l in subs_:
+        for mk in (set, list):
+            obj = mk(DAYS[i] for i in l); before = list(obj) if mk is list else set(obj)
+            def enc(o):
+                try: return "ok " + tools.weekdays_to_hexadecimal(o)
+                except Exception: return "raised"
+            a = enc(obj); b = enc(obj)
+            same.append(a if (a == b and (list(obj) if mk is list else set(obj)) == before) else "first %s, again %s, argument now %s" % (a, b, sorted(DAYS.index(d) for d in obj)))
+    cases2 = [{"days": l, "as": n} for l in subs_ for n in ("set", "list")]
+    lib.differential(out, "same-argument-object-encoded-twice", cases2, same, None,
+                     [x for l in subs_ for x in lib.run_model([lib.req("weekdays_spec", 1, l)]) * 2], lambda c: "one %s object of days %s encoded twice" % (c["as"], c["days"]), sample=lambda c: c)
     # round trip through the real encoder and decoder
     subs = [[d for d in range(7) if m >> d & 1] for m in range(1, 128)]
     rt = [dec_impl(int(enc_impl(1, l)[3:], 16)) if enc_impl(1, l) != "raised" else "raised" for l in subs]
